@@ -403,8 +403,10 @@ def specCfg (cfg : TlsConfig) (r : MkRes) : Bool :=
       (g.clientAuth == .requireAndVerifyClientCert && g.clientCAs == caPool cfg.ca))
   | _ => true
 
+/-- `other`: a pool that is neither nil nor exactly the certificates of one configured `ca` file (e.g. the `ca`
+    on top of the system roots) — numbered outside the range of file ids, so that the specification sees it -/
 def poolOfStr (s : String) : Option Pool :=
-  if s == "nil" then some none else (natOfStr s).map some
+  if s == "nil" then some none else if s == "other" then some (some 1000000) else (natOfStr s).map some
 
 def mkOfStr (s : String) : Option MkRes :=
   if s == "err:missing" then some .errMissingCert
